@@ -1193,7 +1193,7 @@ def arith_ok(rb, f, bi, t):
             ok, why = rb.ge1(f, bi, a)
             if ok:
                 return True, "b1: minuend >= 1 (%s)" % why
-            if "BITS" in term_str(a) and CONTRACTS.get(f.key, {}).get("n>=1"):
+            if CONTRACTS.get(f.key, {}).get("n>=1") and _minus_lz_at_least(a) is not None and _minus_lz_at_least(a) >= 1:
                 return True, "log2_fast: x >= 1 => leading_zeros <= BITS-1 => BITS - lz >= 1"
             if rb.is_len(a) and f.is_closure and hit_continuation(rb.view, f):
                 return True, "b3: continuation of a successful keyed removal: the store held that entry, so size >= 1"
@@ -1210,12 +1210,38 @@ def arith_ok(rb, f, bi, t):
         sa, sb = strip(a), strip(b)
         if sa[0] == "field" and sb[0] == "field" and is_cursor(sa, "back") and is_cursor(sb, "front") and sa[3] == sb[3]:
             return True, "iterator invariant front cursor <= back cursor (maintained by the cursor discipline, R-CURSOR c2)"
-        if "BITS" in term_str(a) or "leading_zeros" in term_str(b) + term_str(a):
-            con = CONTRACTS.get(f.key, {})
-            if con.get("n>=1"):
-                return True, "log2_fast: x >= 1 => leading_zeros <= BITS-1"
+        if "leading_zeros" in term_str(b) and CONTRACTS.get(f.key, {}).get("n>=1"):
+            k = _const_bits(a)
+            if k is not None and k >= USIZE_BITS - 1:
+                return True, "log2_fast: x >= 1 => leading_zeros <= BITS-1 <= %d" % k
         return False, "subtraction %s - %s without a dominating order fact" % (term_str(a)[:30], term_str(b)[:30])
     return False, "unrecognised checked operation " + op
+
+
+USIZE_BITS = 64   # the analysed target (the extractor evaluates `usize::BITS` on it)
+
+
+def _const_bits(t):
+    """the integer a term denotes: a literal, or the named constant usize::BITS (older fact files)"""
+    t = strip(t)
+    k = const_int(t)
+    if k is not None:
+        return k
+    if t[0] == "const" and str(t[1]).endswith("::BITS") and "usize" in str(t[1]):
+        return USIZE_BITS
+    return None
+
+
+def _minus_lz_at_least(t):
+    """a lower bound of `K - leading_zeros(x)` for x >= 1 (leading_zeros <= BITS-1), K a constant; None if t is not that"""
+    t = strip(t)
+    if t[0] == "field" and t[2] in (0, "0"):
+        t = strip(t[1])
+    if t[0] == "binop" and t[1].startswith("Sub") and "leading_zeros" in term_str(t[3]):
+        k = _const_bits(t[2])
+        if k is not None:
+            return k - (USIZE_BITS - 1)
+    return None
 
 
 def bounded_by_allocation(rb, t):
@@ -1256,3 +1282,167 @@ def hit_continuation(view, f):
     if recv is None:
         return False
     return any(x[0] == "call" and x[1].split("::")[-1] in ("swap_remove_full", "swap_remove", "shift_remove_full") for x in walk(recv))
+
+
+# ------------------------------------------------------------------------------------------
+# R-ORDERPANIC (C04): no explicit panic may depend on a comparison of priorities
+# ------------------------------------------------------------------------------------------
+PANIC_ENTRY = ("panicking::panic", "panicking::assert_failed", "panicking::begin_panic", "panicking::unreachable",
+               "panicking::panic_fmt", "panicking::panic_display", "panicking::panic_explicit", "panicking::panic_str",
+               "panicking::panic_nounwind", "rt::begin_panic", "rt::panic_fmt")
+
+
+def is_panic_entry(t):
+    if t.get("k") != "call" or "func" not in t:
+        return False
+    p = t["func"].get("path") or t["func"].get("key") or ""
+    return any(e in p for e in PANIC_ENTRY)
+
+
+def _raw_succ(f, i):
+    b = f.blocks[i]
+    if b["cleanup"]:
+        return []
+    t = b["term"]
+    k = t["k"]
+    if k == "goto":
+        return [t["target"]]
+    if k == "switch":
+        return [bb for _, bb in t["targets"]] + [t["otherwise"]]
+    if k in ("call", "assert", "drop"):
+        return [t["target"]] if t.get("target") is not None else []
+    return []
+
+
+def _locals_in(x, out):
+    if isinstance(x, dict):
+        if "local" in x and "proj" in x:
+            out.add(x["local"])
+        for v in x.values():
+            _locals_in(v, out)
+    elif isinstance(x, list):
+        for v in x:
+            _locals_in(v, out)
+
+
+def _is_literal_switch(f, t):
+    d = t["discr"]
+    if d["k"] == "const":
+        return True
+    if d["k"] in ("copy", "move") and not d["place"]["proj"]:
+        L = d["place"]["local"]
+        if f.locals[L]["name"]:
+            return False
+        defs = []
+        for b in f.blocks:
+            for s in b["stmts"]:
+                if s["k"] == "assign" and s["place"]["local"] == L and not s["place"]["proj"]:
+                    defs.append(s)
+            tt = b["term"]
+            if tt["k"] == "call" and tt["dest"]["local"] == L:
+                defs.append(None)
+        return len(defs) == 1 and defs[0] is not None and defs[0]["rv"]["k"] == "use" and defs[0]["rv"]["op"]["k"] == "const"
+    return False
+
+
+BOOLISH = ("bool", "Ordering", "std::cmp::Ordering", "core::cmp::Ordering")
+
+
+def _boolish(ty):
+    s = ty if isinstance(ty, str) else (ty or {}).get("s", "")
+    s = s.replace("std::option::Option<", "").replace("core::option::Option<", "").replace("Option<", "").rstrip(">").strip()
+    return s in BOOLISH or s.endswith("::Ordering")
+
+
+def orderpanic_scan(view, f):
+    """-> list of (panic bb, [comparison sites]) for every explicit panic of `f` whose reachability depends on the outcome
+    of a comparison of priorities.  Works on the RAW blocks: the body of a `debug_assert!` sits behind the literal
+    `cfg!(debug_assertions)`, which the extraction configuration (and the folded CFG every other rule reads) cuts off."""
+    fx = view.fx
+    n = len(f.blocks)
+    pred = [[] for _ in range(n)]
+    for i in range(n):
+        for o in _raw_succ(f, i):
+            pred[o].append(i)
+    out = []
+    total = 0
+    for p in range(n):
+        b = f.blocks[p]
+        if b["cleanup"] or not is_panic_entry(b["term"]):
+            continue
+        total += 1
+        R = {p}
+        st = [p]
+        while st:
+            x = st.pop()
+            for y in pred[x]:
+                if y not in R:
+                    R.add(y)
+                    st.append(y)
+        ctrl = [s for s in R if f.blocks[s]["term"]["k"] == "switch" and any(o not in R for o in _raw_succ(f, s))
+                and not _is_literal_switch(f, f.blocks[s]["term"])]
+        hits = []
+        seen = set()
+        work = set()
+        for s in ctrl:
+            _locals_in(f.blocks[s]["term"]["discr"], work)
+        work = list(work)
+        while work:
+            L = work.pop()
+            if L in seen:
+                continue
+            seen.add(L)
+            for bi, bb in enumerate(f.blocks):
+                if bb["cleanup"]:
+                    continue
+                for s in bb["stmts"]:
+                    if s["k"] == "assign" and s["place"]["local"] == L:
+                        more = set()
+                        _locals_in(s["rv"], more)
+                        work.extend(more - seen)
+                t = bb["term"]
+                if t["k"] == "call" and t["dest"]["local"] == L:
+                    ci = fx.call_info(f, bi)
+                    cmpish = ci.cmp or (ci.local_callee is None and ci.mruc and ci.name in (
+                        "cmp", "partial_cmp", "lt", "le", "gt", "ge", "eq", "ne", "max", "min") and ci.cmp)
+                    callee_cmp = False
+                    for c in ([ci.local_callee] if ci.local_callee else []) + list(ci.closures or []):
+                        if c and "CMP" in fx.effects.get(c, ()) and _boolish(f.locals[L]["ty"]):
+                            callee_cmp = True
+                    if cmpish or callee_cmp:
+                        hits.append("%s at line %d" % (ci.name, t["span"]["line"]))
+                    else:
+                        more = set()
+                        _locals_in(t["args"], more)
+                        work.extend(more - seen)
+        if hits:
+            out.append((p, sorted(set(hits))))
+    return total, out
+
+
+def r_orderpanic(ctx, view):
+    """R-ORDERPANIC.  The heap ORDER is not an invariant the code may rely on for not panicking: C04's histories include
+    continuing after a leaked iter_mut guard, which leaves the order unspecified.  So no explicit panic (panic!, assert!,
+    debug_assert!, unreachable!) may be control-dependent on the outcome of a comparison of priorities."""
+    ctx.cur = view
+    npan = 0
+    # only code that a user of the crate can make run: everything reachable from an exported function (a private checker
+    # that nothing calls - `#[allow(dead_code)] fn debug_check_invariants` - is test scaffolding, not behaviour)
+    live = set()
+    for key, f in view.prog.fns.items():
+        if f.exported and key not in live:
+            live |= view.fx.reach(key)
+    for key, f in sorted(view.prog.fns.items()):
+        if not f.blocks or key not in live:
+            continue
+        total, bad = orderpanic_scan(view, f)
+        npan += total
+        for p, hits in bad:
+            t = f.blocks[p]["term"]
+            ctx.ob("R-ORDERPANIC", "%s:panic-depends-on-priority-order" % key, False, f.loc(),
+                   "this panic is reached or not depending on a comparison of priorities (%s): it fires whenever the heap order does "
+                   "not hold, which fault-free use can bring about (a leaked iter_mut guard), also in debug builds" % "; ".join(hits))
+        if total and not bad:
+            ctx.ob("R-ORDERPANIC", "%s:explicit-panics" % key, True, f.loc(),
+                   "%d explicit panic site(s), none control-dependent on a comparison of priorities" % total)
+    ctx.ob("R-ORDERPANIC", "crate:no-order-dependent-panic", True, "", "%d explicit panic sites examined in %d bodies" % (npan, len(view.prog.fns)))
